@@ -126,4 +126,542 @@ Proof.
   reflexivity.
 Qed.
 
+
+(* ---- Insert / InsertSlice ---- *)
+
+(* the two copies of InsertSlice on an array already extended by append *)
+Lemma insert_slice_core pre post vs tail i k :
+  i = length pre -> k = length vs ->
+  copy_from (copy_within (pre ++ post ++ vs ++ tail) (Win (i + k) (length post)) (Win i (length post + k)))
+            (Win i (length post + k)) vs
+  = pre ++ vs ++ post ++ tail.
+Proof.
+  intros -> ->. unfold copy_within, copy_from. cbn [w_len w_off].
+  rewrite Nat.min_l by lia. rewrite Nat.min_r by lia. rewrite firstn_all.
+  rewrite (skipn_app_exact pre) by reflexivity.
+  rewrite (firstn_app_exact post) by reflexivity.
+  set (h := firstn (length vs) (post ++ vs)).
+  set (old := skipn (length vs) (post ++ vs)).
+  assert (Eh : length h = length vs) by (unfold h; rewrite firstn_length, app_length; lia).
+  assert (Eo : length old = length post) by (unfold old; rewrite skipn_length, app_length; lia).
+  assert (E : pre ++ post ++ vs ++ tail = (pre ++ h) ++ old ++ tail).
+  { rewrite <- app_assoc. f_equal. rewrite (app_assoc post vs tail).
+    rewrite <- (firstn_skipn (length vs) (post ++ vs)). fold h old. rewrite <- app_assoc. reflexivity. }
+  rewrite E. rewrite write_at_app by (rewrite ?app_length; lia).
+  rewrite <- app_assoc. apply write_at_app; [reflexivity|exact Eh].
+Qed.
+
+Lemma split_at (l : list A) i : i <= length l ->
+  exists pre post, l = pre ++ post /\ length pre = i /\ length post = length l - i /\
+                   firstn i l = pre /\ skipn i l = post.
+Proof.
+  intros H. exists (firstn i l), (skipn i l).
+  rewrite firstn_skipn, firstn_length, skipn_length. repeat split; lia.
+Qed.
+
+Lemma Zofnat_add1 (i : nat) : (Z.of_nat i + 1)%Z = Z.of_nat (i + 1).
+Proof. lia. Qed.
+
+Theorem insert_slice_correct growth zero s (i : nat) vs : wf s -> i <= len s ->
+  insert_slice growth zero s (Z.of_nat i) vs =
+  (GS (splice_in (visible s) i vs ++ append_tail growth zero s (length vs)) (len s + length vs), Ok tt).
+Proof.
+  intros W Hi. unfold insert_slice, splice_in. rewrite append_spec by exact W.
+  set (tail := append_tail growth zero s (length vs)).
+  destruct (split_at (visible s) i) as (pre & post & E & Lpre & Lpost & -> & ->);
+    [rewrite visible_length by exact W; exact Hi|].
+  rewrite visible_length in Lpost by exact W.
+  rewrite E. unfold with_arr; cbn [stp len arr].
+  rewrite <- Nat2Z.inj_add.
+  rewrite slice_from_ok by (cbn [len]; lia). unfold with_arr; cbn [stp len arr].
+  rewrite slice_from_ok by (cbn [len]; lia). unfold with_arr; cbn [stp len arr].
+  rewrite slice_from_ok by (cbn [len]; lia). unfold with_arr; cbn [stp len arr].
+  replace (len s + length vs - (i + length vs)) with (length post) by lia.
+  replace (len s + length vs - i) with (length post + length vs) by lia.
+  rewrite <- !app_assoc.
+  rewrite insert_slice_core by (symmetry; assumption || reflexivity).
+  reflexivity.
+Qed.
+
+Theorem insert_correct growth zero s (i : nat) v : wf s -> i <= len s ->
+  insert growth zero s (Z.of_nat i) v =
+  (GS (splice_in (visible s) i [v] ++ append_tail growth zero s 1) (len s + 1), Ok tt).
+Proof.
+  intros W Hi. unfold insert, splice_in. rewrite append_spec by exact W. cbn [length].
+  set (tail := append_tail growth zero s 1).
+  destruct (split_at (visible s) i) as (pre & post & E & Lpre & Lpost & -> & ->);
+    [rewrite visible_length by exact W; exact Hi|].
+  rewrite visible_length in Lpost by exact W.
+  rewrite E. unfold with_arr; cbn [stp len arr].
+  rewrite Zofnat_add1.
+  rewrite slice_from_ok by (cbn [len]; lia). unfold with_arr; cbn [stp len arr].
+  rewrite slice_from_ok by (cbn [len]; lia). unfold with_arr; cbn [stp len arr].
+  rewrite set_index_ok by (cbn [len]; lia). unfold with_arr; cbn [stp len arr].
+  replace (len s + 1 - (i + 1)) with (length post) by lia.
+  replace (len s + 1 - i) with (length post + 1) by lia.
+  rewrite <- !app_assoc.
+  pose proof (insert_slice_core pre post [v] tail i 1 (eq_sym Lpre) eq_refl) as C.
+  unfold copy_from in C. cbn [w_len w_off length] in C.
+  rewrite Nat.min_r in C by lia. cbn [firstn] in C.
+  rewrite C. reflexivity.
+Qed.
+
+(* invalid positions: the panic comes after the append, so the slice has grown *)
+Theorem insert_slice_panics growth zero s (index : Z) vs :
+  (index < 0 \/ Z.of_nat (len s) < index)%Z ->
+  insert_slice growth zero s index vs = (append growth zero s vs, Panic IndexOutOfRange).
+Proof.
+  intros H. unfold insert_slice.
+  set (s1 := append growth zero s vs).
+  assert (L : len s1 = len s + length vs).
+  { unfold s1, append. destruct (_ <=? _); reflexivity. }
+  destruct (slice_from s1 (index + Z.of_nat (length vs))) as [d|k] eqn:E1.
+  - cbn [stp]. rewrite slice_from_panic; [reflexivity|]. rewrite L.
+    destruct H as [H|H]; [left; exact H|].
+    exfalso. unfold slice_from in E1. rewrite L in E1.
+    destruct ((0 <=? index + Z.of_nat (length vs))%Z && (index + Z.of_nat (length vs) <=? Z.of_nat (len s + length vs))%Z) eqn:B;
+      [|discriminate].
+    apply andb_true_iff in B as [_ B]. apply Z.leb_le in B. lia.
+  - cbn [stp]. unfold slice_from in E1. destruct (_ && _); [discriminate|]. injection E1 as <-. reflexivity.
+Qed.
+
+Theorem insert_panics growth zero s (index : Z) v :
+  (index < 0 \/ Z.of_nat (len s) < index)%Z ->
+  insert growth zero s index v = (append growth zero s [v], Panic IndexOutOfRange).
+Proof.
+  intros H. unfold insert.
+  set (s1 := append growth zero s [v]).
+  assert (L : len s1 = len s + 1).
+  { unfold s1, append. destruct (_ <=? _); reflexivity. }
+  destruct (slice_from s1 (index + 1)) as [d|k] eqn:E1.
+  - cbn [stp]. rewrite slice_from_panic; [reflexivity|]. rewrite L.
+    destruct H as [H|H]; [left; exact H|].
+    exfalso. unfold slice_from in E1. rewrite L in E1.
+    destruct ((0 <=? index + 1)%Z && (index + 1 <=? Z.of_nat (len s + 1))%Z) eqn:B; [|discriminate].
+    apply andb_true_iff in B as [_ B]. apply Z.leb_le in B. lia.
+  - cbn [stp]. unfold slice_from in E1. destruct (_ && _); [discriminate|]. injection E1 as <-. reflexivity.
+Qed.
+
+
+(* ---- Remove / RemoveSlice ---- *)
+
+Lemma copy_shift_left pre mid post g i k :
+  i = length pre -> k = length mid ->
+  copy_within (pre ++ mid ++ post ++ g) (Win i (k + length post)) (Win (i + k) (length post))
+  = pre ++ post ++ skipn (length post) (mid ++ post ++ g).
+Proof.
+  intros -> ->. unfold copy_within. cbn [w_len w_off].
+  rewrite Nat.min_r by lia.
+  rewrite (skipn_app_plus pre _ _ (length mid)) by reflexivity.
+  rewrite (skipn_app_exact mid) by reflexivity.
+  rewrite (firstn_app_exact post) by reflexivity.
+  set (R := mid ++ post ++ g).
+  rewrite <- (firstn_skipn (length post) R) at 1.
+  apply write_at_app; [reflexivity|].
+  rewrite firstn_length. unfold R. rewrite !app_length. lia.
+Qed.
+
+Lemma slice_from_inv s (i : Z) w : slice_from s i = Ok w -> (0 <= i <= Z.of_nat (len s))%Z.
+Proof.
+  unfold slice_from. destruct (_ && _) eqn:B; [|discriminate]. intros _.
+  apply andb_true_iff in B as [B1 B2]. apply Z.leb_le in B1, B2. lia.
+Qed.
+
+Lemma slice_from_panic_kind s (i : Z) k : slice_from s i = Panic k -> k = IndexOutOfRange.
+Proof. unfold slice_from. destruct (_ && _); [discriminate|]. intros E. injection E as <-. reflexivity. Qed.
+
+Theorem remove_slice_correct s (i k : nat) : wf s -> i + k <= len s ->
+  remove_slice s (Z.of_nat i) (Z.of_nat k) =
+  (GS (splice_out (visible s) i k ++ skipn (len s - k) (arr s)) (len s - k), Ok tt).
+Proof.
+  destruct s as [a n]. unfold wf, cap, visible, splice_out. cbn [arr len]. intros W H.
+  destruct (split4 a i k n H W) as (pre & mid & post & g & -> & Lpre & Lmid & Lpost).
+  unfold remove_slice.
+  rewrite slice_from_ok by (cbn [len]; lia). unfold with_arr; cbn [stp len arr].
+  rewrite <- Nat2Z.inj_add.
+  rewrite slice_from_ok by (cbn [len]; lia). unfold with_arr; cbn [stp len arr].
+  replace (n - i) with (k + length post) by lia.
+  replace (n - (i + k)) with (length post) by lia.
+  rewrite copy_shift_left by (symmetry; assumption).
+  replace (Z.of_nat n - Z.of_nat k)%Z with (Z.of_nat (n - k)) by lia.
+  unfold reslice_to. rewrite slice_to_ok.
+  2:{ unfold cap. cbn [arr]. rewrite !app_length, skipn_length, !app_length. lia. }
+  cbn [bind stp w_len]. f_equal. f_equal.
+  assert (V : firstn n (pre ++ mid ++ post ++ g) = pre ++ mid ++ post).
+  { rewrite (app_assoc mid), (app_assoc pre). apply firstn_app_exact. rewrite !app_length. lia. }
+  rewrite V.
+  rewrite (firstn_app_exact pre (mid ++ post) i) by (symmetry; exact Lpre).
+  rewrite (skipn_app_plus pre (mid ++ post) (i + k) k) by lia.
+  rewrite (skipn_app_exact mid post k) by (symmetry; exact Lmid).
+  cbn [arr]. rewrite <- app_assoc. f_equal. f_equal. symmetry.
+  apply skipn_app_plus. lia.
+Qed.
+
+Theorem remove_correct s (i : nat) : wf s -> i < len s ->
+  remove s (Z.of_nat i) =
+  (GS (splice_out (visible s) i 1 ++ skipn (len s - 1) (arr s)) (len s - 1), Ok tt).
+Proof.
+  intros W H. rewrite <- (remove_slice_correct s i 1 W) by lia.
+  unfold remove, remove_slice. repeat f_equal.
+Qed.
+
+(* invalid positions: the panic comes before anything is written *)
+Theorem remove_slice_panics s (index length : Z) :
+  (0 <= length)%Z -> (index < 0 \/ Z.of_nat (len s) < index + length)%Z ->
+  remove_slice s index length = (s, Panic IndexOutOfRange).
+Proof.
+  intros Hl H. unfold remove_slice.
+  destruct (slice_from s index) as [d|k] eqn:E1; cbn [stp].
+  - apply slice_from_inv in E1. rewrite slice_from_panic; [reflexivity|]. lia.
+  - apply slice_from_panic_kind in E1. subst k. reflexivity.
+Qed.
+
+Theorem remove_panics s (index : Z) :
+  (index < 0 \/ Z.of_nat (len s) <= index)%Z ->
+  remove s index = (s, Panic IndexOutOfRange).
+Proof.
+  intros H. rewrite <- (remove_slice_panics s index 1) by lia.
+  unfold remove, remove_slice.
+  destruct (slice_from s index); cbn [stp]; [|reflexivity].
+  destruct (slice_from s (index + 1)); reflexivity.
+Qed.
+
+
+(* ---- Fill / Repeat ---- *)
+
+Lemma firstn_repeat (v : A) n m : n <= m -> firstn n (repeat v m) = repeat v n.
+Proof.
+  revert m; induction n as [|n IH]; intros [|m] H; cbn [firstn repeat]; try reflexivity; try lia.
+  f_equal. apply IH. lia.
+Qed.
+
+(* invariant of the exponential copy loop: the first min(i,n) elements are v, the rest is untouched *)
+Lemma fill_loop_spec (v : A) n : forall fuel i rest,
+  1 <= i -> n <= i + fuel -> n <= Nat.min i n + length rest ->
+  fill_loop fuel (GS (repeat v (Nat.min i n) ++ rest) n) i =
+  Ok (GS (repeat v n ++ skipn (n - Nat.min i n) rest) n).
+Proof.
+  induction fuel as [|fuel IH]; intros i rest Hi Hf Hr.
+  - assert (E : i <? n = false) by (apply Nat.ltb_ge; lia).
+    cbn [fill_loop len]. rewrite E.
+    rewrite Nat.min_r by lia. rewrite Nat.sub_diag. reflexivity.
+  - cbn [fill_loop len]. destruct (i <? n) eqn:E.
+    + apply Nat.ltb_lt in E. rewrite Nat.min_l in * by lia.
+      rewrite slice_from_ok by (cbn [len]; lia). cbn [bind].
+      rewrite slice_to_ok by (unfold cap; cbn [arr]; rewrite app_length, repeat_length; lia).
+      cbn [bind]. unfold with_arr. cbn [len arr].
+      set (cnt := Nat.min (n - i) i).
+      assert (C : copy_within (repeat v i ++ rest) (Win i (n - i)) (Win 0 i)
+                  = repeat v (Nat.min (i + i) n) ++ skipn cnt rest).
+      { unfold copy_within. cbn [w_len w_off skipn]. fold cnt.
+        rewrite firstn_app, firstn_repeat by (unfold cnt; lia).
+        rewrite repeat_length.
+        replace (cnt - i) with 0 by (unfold cnt; lia). cbn [firstn]. rewrite app_nil_r.
+        rewrite <- (firstn_skipn cnt rest) at 1.
+        rewrite write_at_app; [| rewrite repeat_length; reflexivity
+                               | rewrite firstn_length, repeat_length; unfold cnt; lia].
+        rewrite app_assoc, <- repeat_app. f_equal. f_equal. unfold cnt. lia. }
+      rewrite C. rewrite IH; [| lia | lia | rewrite skipn_length; unfold cnt; lia].
+      f_equal. f_equal. f_equal. rewrite skipn_skipn'. f_equal. unfold cnt. lia.
+    + apply Nat.ltb_ge in E. rewrite Nat.min_r by lia. rewrite Nat.sub_diag. reflexivity.
+Qed.
+
+Theorem fill_correct s (v : A) : wf s ->
+  fill s v = Ok (GS (repeat v (len s) ++ skipn (len s) (arr s)) (len s)).
+Proof.
+  destruct s as [a n]. unfold wf, cap, fill. cbn [arr len]. intros W.
+  destruct (n =? 0) eqn:E.
+  - apply Nat.eqb_eq in E. subst n. reflexivity.
+  - apply Nat.eqb_neq in E.
+    destruct a as [|x a]; [cbn [length] in W; lia|].
+    change 0%Z with (Z.of_nat 0). rewrite set_index_ok by (cbn [len]; lia).
+    unfold with_arr, write_at. cbn [bind len arr firstn skipn length app plus].
+    pose proof (fill_loop_spec v n n 1 a) as L.
+    rewrite Nat.min_l in L by lia. cbn [repeat app] in L.
+    rewrite L; [| lia | lia | cbn [length] in W; lia].
+    f_equal. f_equal. f_equal.
+    destruct n as [|n]; [lia|]. cbn [skipn]. f_equal. lia.
+Qed.
+
+Theorem repeat_correct (zero v : A) (count : nat) :
+  repeat_ zero v (Z.of_nat count) = Ok (GS (repeat v count) count).
+Proof.
+  unfold repeat_, make_slice.
+  replace (Z.of_nat count <? 0)%Z with false by (symmetry; apply Z.ltb_ge; lia).
+  rewrite Nat2Z.id. cbn [bind].
+  rewrite fill_correct by (unfold wf, cap; cbn [arr len]; rewrite repeat_length; lia).
+  cbn [arr len]. rewrite skipn_all2 by (rewrite repeat_length; lia).
+  rewrite app_nil_r. reflexivity.
+Qed.
+
+Theorem repeat_panics (zero v : A) (count : Z) : (count < 0)%Z ->
+  repeat_ zero v count = Panic OtherPanic.
+Proof.
+  intros H. unfold repeat_, make_slice.
+  replace (count <? 0)%Z with true by (symmetry; apply Z.ltb_lt; lia). reflexivity.
+Qed.
+
+
+(* ---- Reverse ---- *)
+
+Lemma reverse_cond (p m n : nat) : n = p + m + p ->
+  (Z.of_nat p <? Z.of_nat n / 2)%Z = (2 <=? m).
+Proof.
+  intros ->. destruct (2 <=? m) eqn:E.
+  - apply Nat.leb_le in E. apply Z.ltb_lt.
+    apply Z.lt_le_trans with (Z.of_nat p + 1)%Z; [lia|].
+    apply Z.div_le_lower_bound; lia.
+  - apply Nat.leb_gt in E. apply Z.ltb_ge.
+    apply Z.lt_succ_r. apply Z.div_lt_upper_bound; lia.
+Qed.
+
+Ltac norm_app := repeat (progress (repeat rewrite <- app_assoc; cbn [app])).
+
+(* invariant of the two-index walk: the outer parts are already exchanged, the middle is still to do *)
+Lemma reverse_loop_spec g n : forall fuel mid pre post (i j : Z),
+  length mid <= 2 * fuel -> length post = length pre -> n = length pre + length mid + length post ->
+  i = Z.of_nat (length pre) -> j = (Z.of_nat (length pre + length mid) - 1)%Z ->
+  reverse_loop fuel (GS (pre ++ mid ++ post ++ g) n) i j = Ok (GS (pre ++ rev mid ++ post ++ g) n).
+Proof.
+  induction fuel as [|fuel IH]; intros mid pre post i j Hf Hp Hn -> ->.
+  - destruct mid as [|a mid]; [|cbn [length] in Hf; lia].
+    cbn [reverse_loop len]. rewrite (reverse_cond (length pre) 0 n) by (cbn [length] in Hn; lia).
+    reflexivity.
+  - cbn [reverse_loop len].
+    rewrite (reverse_cond (length pre) (length mid) n) by lia.
+    destruct mid as [|a [|a2 mid2]]; [reflexivity|reflexivity|].
+    destruct (@exists_last _ (a2 :: mid2)) as (mid' & b & E); [discriminate|].
+    rewrite E in *. clear E a2 mid2.
+    cbn [length] in *. rewrite app_length in *. cbn [length] in *.
+    replace (2 <=? S (length mid' + 1)) with true by (symmetry; apply Nat.leb_le; lia).
+    replace (Z.of_nat (length pre + S (length mid' + 1)) - 1)%Z
+      with (Z.of_nat (length (pre ++ a :: mid'))) by (rewrite app_length; cbn [length]; lia).
+    rewrite (get_index_ok _ _ (pre ++ a :: mid') b (post ++ g));
+      [| cbn [len]; rewrite app_length; cbn [length]; lia | cbn [arr]; norm_app; reflexivity | reflexivity].
+    cbn [bind].
+    rewrite (get_index_ok _ _ pre a (mid' ++ b :: post ++ g));
+      [| cbn [len]; lia | cbn [arr]; norm_app; reflexivity | reflexivity].
+    cbn [bind].
+    rewrite set_index_ok by (cbn [len]; lia). cbn [bind]. unfold with_arr at 1. cbn [len arr].
+    replace (pre ++ (a :: mid' ++ [b]) ++ post ++ g) with (pre ++ [a] ++ (mid' ++ b :: post ++ g))
+      by (norm_app; reflexivity).
+    rewrite write_at_app by reflexivity.
+    rewrite set_index_ok by (cbn [len]; rewrite app_length; cbn [length]; lia).
+    cbn [bind]. unfold with_arr. cbn [len arr].
+    replace (pre ++ [b] ++ mid' ++ b :: post ++ g) with ((pre ++ b :: mid') ++ [b] ++ (post ++ g))
+      by (norm_app; reflexivity).
+    rewrite write_at_app by (rewrite ?app_length; reflexivity).
+    replace ((pre ++ b :: mid') ++ [a] ++ post ++ g) with ((pre ++ [b]) ++ mid' ++ (a :: post) ++ g)
+      by (norm_app; reflexivity).
+    rewrite (IH mid' (pre ++ [b]) (a :: post));
+      try (rewrite ?app_length; cbn [length]; lia).
+    f_equal. f_equal. cbn [rev]. rewrite rev_app_distr. cbn [rev app]. norm_app. reflexivity.
+Qed.
+
+Theorem reverse_correct s : wf s ->
+  reverse s = Ok (GS (rev (visible s) ++ skipn (len s) (arr s)) (len s)).
+Proof.
+  intros W. unfold reverse.
+  pose proof (reverse_loop_spec (skipn (len s) (arr s)) (len s) (len s) (visible s) [] []
+               0%Z (Z.of_nat (len s) - 1)%Z) as L.
+  rewrite visible_length in L by exact W. cbn [app length] in L.
+  unfold visible in L at 1. rewrite firstn_skipn in L.
+  destruct s as [a n]. cbn [arr len] in *. apply L; lia.
+Qed.
+
+(* ---- Concat / Clone / Grow ---- *)
+
+Lemma make_slice_ok (zero : A) (n : nat) : make_slice zero (Z.of_nat n) = Ok (GS (repeat zero n) n).
+Proof.
+  unfold make_slice.
+  replace (Z.of_nat n <? 0)%Z with false by (symmetry; apply Z.ltb_ge; lia).
+  rewrite Nat2Z.id. reflexivity.
+Qed.
+
+Theorem concat_correct (zero : A) (a b : gslice A) : wf a -> wf b ->
+  concat_ zero a b = Ok (GS (visible a ++ visible b) (len a + len b)).
+Proof.
+  intros Wa Wb. unfold concat_.
+  rewrite <- Nat2Z.inj_add, make_slice_ok. cbn [bind].
+  rewrite slice_to_ok by (unfold cap; cbn [arr]; rewrite repeat_length; lia).
+  cbn [bind]. unfold with_arr. cbn [len arr].
+  rewrite slice_from_ok by (cbn [len]; lia). cbn [bind len arr].
+  unfold copy_from. cbn [w_len w_off].
+  rewrite !visible_length by assumption.
+  rewrite (firstn_all2 (visible a)) by (rewrite visible_length by assumption; lia).
+  rewrite (firstn_all2 (visible b)) by (rewrite visible_length by assumption; lia).
+  rewrite repeat_app.
+  pose proof (write_at_app [] (repeat zero (len a)) (visible a) (repeat zero (len b)) 0 eq_refl) as E1.
+  cbn [app] in E1. rewrite E1 by (rewrite repeat_length, visible_length by assumption; reflexivity).
+  pose proof (write_at_app (visible a) (repeat zero (len b)) (visible b) [] (len a)) as E2.
+  rewrite !app_nil_r in E2. rewrite E2; [reflexivity| symmetry; apply visible_length; assumption |].
+  rewrite repeat_length, visible_length by assumption. reflexivity.
+Qed.
+
+Theorem clone_correct (zero : A) s : wf s -> clone zero s = Ok (GS (visible s) (len s)).
+Proof.
+  intros W. unfold clone. rewrite make_slice_ok. cbn [bind]. unfold with_arr, whole, copy_from.
+  cbn [len arr w_len w_off]. rewrite visible_length by exact W.
+  rewrite (firstn_all2 (visible s)) by (rewrite visible_length by assumption; lia).
+  pose proof (write_at_app [] (repeat zero (len s)) (visible s) [] 0 eq_refl) as E.
+  cbn [app] in E. rewrite !app_nil_r in E. rewrite E; [reflexivity|].
+  rewrite repeat_length, visible_length by exact W. reflexivity.
+Qed.
+
+Theorem grow_correct growth (zero : A) s (n : nat) : wf s ->
+  grow growth zero s (Z.of_nat n) =
+  Ok (GS (visible s ++ repeat zero n ++ append_tail growth zero s n) (len s + n)).
+Proof.
+  intros W. unfold grow. rewrite make_slice_ok. cbn [bind].
+  unfold visible at 1. cbn [len arr]. rewrite <- (repeat_length zero n) at 1. rewrite firstn_all.
+  rewrite append_spec by exact W. rewrite repeat_length. reflexivity.
+Qed.
+
+Theorem grow_panics growth (zero : A) s (n : Z) : (n < 0)%Z -> grow growth zero s n = Panic OtherPanic.
+Proof.
+  intros H. unfold grow, make_slice.
+  replace (n <? 0)%Z with true by (symmetry; apply Z.ltb_lt; lia). reflexivity.
+Qed.
+
+(* ---- what the closed forms mean ---- *)
+
+(* the visible part of every result, and that the results are well formed *)
+Lemma visible_GS_app (l tail : list A) n : n = length l -> visible (GS (l ++ tail) n) = l.
+Proof. intros ->. unfold visible. cbn [arr len]. apply firstn_app_exact. reflexivity. Qed.
+
+Lemma splice_in_length (l : list A) i xs : length (splice_in l i xs) = length l + length xs.
+Proof.
+  unfold splice_in. rewrite !app_length.
+  rewrite <- (firstn_skipn i l) at 3. rewrite app_length. lia.
+Qed.
+
+Lemma splice_out_length (l : list A) i k : i + k <= length l -> length (splice_out l i k) = length l - k.
+Proof.
+  intros H. unfold splice_out. rewrite app_length, firstn_length, skipn_length. lia.
+Qed.
+
+
+Lemma nth_error_firstn' (l : list A) i j : j < i -> i <= length l -> nth_error (firstn i l) j = nth_error l j.
+Proof.
+  intros H1 H2. rewrite <- (firstn_skipn i l) at 2.
+  rewrite nth_error_app1; [reflexivity|]. rewrite firstn_length. lia.
+Qed.
+
+Lemma nth_error_skipn' (l : list A) i j : i <= length l -> nth_error (skipn i l) j = nth_error l (i + j).
+Proof.
+  intros H. rewrite <- (firstn_skipn i l) at 2.
+  rewrite nth_error_app2; rewrite firstn_length; [|lia]. f_equal. lia.
+Qed.
+
+(* splicing in: everything before position i stays, then xs, then the rest in order *)
+Theorem splice_in_nth (l : list A) i xs j : i <= length l ->
+  nth_error (splice_in l i xs) j =
+  if j <? i then nth_error l j
+  else if j <? i + length xs then nth_error xs (j - i)
+  else nth_error l (j - length xs).
+Proof.
+  intros H. unfold splice_in.
+  destruct (j <? i) eqn:E1.
+  - apply Nat.ltb_lt in E1. rewrite nth_error_app1 by (rewrite firstn_length; lia).
+    apply nth_error_firstn'; lia.
+  - apply Nat.ltb_ge in E1. rewrite nth_error_app2 by (rewrite firstn_length; lia).
+    rewrite firstn_length. replace (Nat.min i (length l)) with i by lia.
+    destruct (j <? i + length xs) eqn:E2.
+    + apply Nat.ltb_lt in E2. rewrite nth_error_app1 by lia. reflexivity.
+    + apply Nat.ltb_ge in E2. rewrite nth_error_app2 by lia.
+      rewrite nth_error_skipn' by lia. f_equal. lia.
+Qed.
+
+(* splicing out: everything before position i stays, the elements from i+k on follow in order *)
+Theorem splice_out_nth (l : list A) i k j : i + k <= length l ->
+  nth_error (splice_out l i k) j = if j <? i then nth_error l j else nth_error l (j + k).
+Proof.
+  intros H. unfold splice_out.
+  destruct (j <? i) eqn:E1.
+  - apply Nat.ltb_lt in E1. rewrite nth_error_app1 by (rewrite firstn_length; lia).
+    apply nth_error_firstn'; lia.
+  - apply Nat.ltb_ge in E1. rewrite nth_error_app2 by (rewrite firstn_length; lia).
+    rewrite firstn_length. replace (Nat.min i (length l)) with i by lia.
+    rewrite nth_error_skipn' by lia. f_equal. lia.
+Qed.
+
+Lemma append_tail_length growth (zero : A) s k : wf s ->
+  length (append_tail growth zero s k) =
+  (if len s + k <=? cap s then cap s else new_cap growth (cap s) (len s + k)) - (len s + k).
+Proof.
+  intros W. unfold append_tail. destruct (len s + k <=? cap s).
+  - rewrite skipn_length. reflexivity.
+  - apply repeat_length.
+Qed.
+
+(* the results in terms of visible part / spare capacity; all results are well formed slices *)
+Theorem insert_slice_visible growth zero s (i : nat) vs : wf s -> i <= len s ->
+  let r := fst (insert_slice growth zero s (Z.of_nat i) vs) in
+  snd (insert_slice growth zero s (Z.of_nat i) vs) = Ok tt /\ wf r /\ len r = len s + length vs /\
+  visible r = splice_in (visible s) i vs /\ spare r = append_tail growth zero s (length vs).
+Proof.
+  intros W H. rewrite insert_slice_correct by assumption. cbn [fst snd].
+  assert (L : len s + length vs = length (splice_in (visible s) i vs))
+    by (rewrite splice_in_length, visible_length by exact W; reflexivity).
+  unfold wf, cap, spare. cbn [arr len]. repeat split.
+  - rewrite app_length. lia.
+  - apply visible_GS_app. exact L.
+  - apply skipn_app_exact. exact L.
+Qed.
+
+Theorem insert_visible growth zero s (i : nat) v : wf s -> i <= len s ->
+  let r := fst (insert growth zero s (Z.of_nat i) v) in
+  snd (insert growth zero s (Z.of_nat i) v) = Ok tt /\ wf r /\ len r = len s + 1 /\
+  visible r = splice_in (visible s) i [v] /\ spare r = append_tail growth zero s 1.
+Proof.
+  intros W H. rewrite insert_correct by assumption. cbn [fst snd].
+  assert (L : len s + 1 = length (splice_in (visible s) i [v]))
+    by (rewrite splice_in_length, visible_length by exact W; reflexivity).
+  unfold wf, cap, spare. cbn [arr len]. repeat split.
+  - rewrite app_length. lia.
+  - apply visible_GS_app. exact L.
+  - apply skipn_app_exact. exact L.
+Qed.
+
+Theorem remove_slice_visible s (i k : nat) : wf s -> i + k <= len s ->
+  let r := fst (remove_slice s (Z.of_nat i) (Z.of_nat k)) in
+  snd (remove_slice s (Z.of_nat i) (Z.of_nat k)) = Ok tt /\ wf r /\ len r = len s - k /\ cap r = cap s /\
+  visible r = splice_out (visible s) i k /\ spare r = skipn (len s - k) (arr s).
+Proof.
+  intros W H. rewrite remove_slice_correct by assumption. cbn [fst snd].
+  assert (L : len s - k = length (splice_out (visible s) i k))
+    by (rewrite splice_out_length; rewrite visible_length by exact W; [reflexivity|lia]).
+  assert (C : length (splice_out (visible s) i k ++ skipn (len s - k) (arr s)) = cap s).
+  { rewrite app_length, <- L, skipn_length. unfold wf, cap in *. lia. }
+  unfold wf, cap, spare in *. cbn [arr len]. repeat split.
+  - rewrite C. lia.
+  - exact C.
+  - apply visible_GS_app. exact L.
+  - apply skipn_app_exact. exact L.
+Qed.
+
+Theorem remove_visible s (i : nat) : wf s -> i < len s ->
+  let r := fst (remove s (Z.of_nat i)) in
+  snd (remove s (Z.of_nat i)) = Ok tt /\ wf r /\ len r = len s - 1 /\ cap r = cap s /\
+  visible r = splice_out (visible s) i 1 /\ spare r = skipn (len s - 1) (arr s).
+Proof.
+  intros W H. pose proof (remove_slice_visible s i 1 W) as R.
+  rewrite remove_correct by assumption.
+  rewrite remove_slice_correct in R by (assumption || lia). apply R. lia.
+Qed.
+
+
+(* what lies behind the appended elements: the old spare capacity, untouched, when there was room;
+   otherwise the zeroed rest of a new array at least as long as needed *)
+Theorem append_tail_cases growth (zero : A) s k :
+  (len s + k <= cap s -> append_tail growth zero s k = skipn (len s + k) (arr s)) /\
+  (cap s < len s + k ->
+     append_tail growth zero s k = repeat zero (new_cap growth (cap s) (len s + k) - (len s + k)) /\
+     len s + k <= new_cap growth (cap s) (len s + k)).
+Proof.
+  unfold append_tail, new_cap. split; intros H.
+  - replace (len s + k <=? cap s) with true by (symmetry; apply Nat.leb_le; lia). reflexivity.
+  - replace (len s + k <=? cap s) with false by (symmetry; apply Nat.leb_gt; lia). split; [reflexivity|lia].
+Qed.
+
 End Proofs.
